@@ -97,12 +97,16 @@ func walk[S, T any](ctx context.Context, g *graph[S], t *traversal[S, T]) error 
 
 	eg.Go(func() error {
 		for {
+			verifYield("C.select", "")
 			select {
 			case <-ctx.Done():
+				verifYield("C.ctxDone", "")
 				return nil
 			case node := <-nodeCh:
+				verifYield("C.recv", node.key)
 				expect--
 				if expect == 0 {
+					verifYield("C.exit", "")
 					return nil
 				}
 
@@ -118,28 +122,36 @@ func walk[S, T any](ctx context.Context, g *graph[S], t *traversal[S, T]) error 
 		t.visit(ctx, eg, node, nodeCh)
 	}
 
+	verifYield("M.wait", "")
 	return eg.Wait()
 }
 
 func (t *traversal[S, T]) visit(ctx context.Context, eg *errgroup.Group, node *vertex[S], nodeCh chan *vertex[S]) {
+	verifYield("ready", node.key)
 	if !t.ready(node) {
 		// don't visit this service yet as dependencies haven't been visited
 		return
 	}
+	verifYield("enter", node.key)
 	if !t.enter(node) {
 		// another worker already acquired this node
 		return
 	}
+	verifYield("spawn", node.key)
 	eg.Go(func() error {
 		var (
 			err    error
 			result T
 		)
+		verifYield("W.begin", node.key)
 		if !t.skip(node) {
 			result, err = t.visitor(ctx, node.key, *node.service)
 		}
+		verifYield("W.done", node.key)
 		t.done(node, result)
+		verifYield("W.send", node.key)
 		nodeCh <- node
+		verifYield("W.exit", node.key)
 		return err
 	})
 }
